@@ -25,6 +25,19 @@ M = [
  ("m-C15-radius-not-squared","C15","src/common/kd_tree.rs","radius * radius);","radius);","radius query passes the radius where its square is expected"),
  ("m-C15-partial-index","C15","src/common/kd_tree.rs","        (self.index_map[i], d)","        (i, d)","partial tree forgets the index map in nearest_one"),
  ("m-C17-between-dup-end","C17","src/func1/series1.rs","        if xs[xs.len() - 1] < x1 {","        if xs[xs.len() - 1] <= x1 {","slice repeats its end abscissa"),
+ ("m-C10-tmax-half","C10","src/airfoil/orientation.rs","        if fraction > 0.5 {","        if fraction < 0.5 {","TMaxFwd reverses the camber line when the thickest station is already forward"),
+ ("m-C10-order-faces","C10","src/airfoil.rs","        if a_m > b_m {","        if a_m < b_m {","upper and lower surfaces swapped"),
+ ("m-C16-min-uses-max","C16","src/metrology/surface_deviation.rs","            || deviation.deviation < self.values[self.min_index.unwrap()].deviation","            || deviation.deviation < self.values[self.max_index.unwrap()].deviation","push compares the new value with the maximum when updating the minimum"),
+ ("m-C16-tolmap-first","C16","src/metrology/tolerance_map.rs","            Some(self.tol_zones[self.tol_zones.len() - 1])","            Some(self.tol_zones[0])","tolerance map returns the first zone outside the table"),
+ ("m-C16-merge-early","C16","src/geom3/point_cloud.rs","        if self.colors.is_some() != other.colors.is_some() {\n            return Err(\"Cannot merge point clouds with inconsistent color data\".into());\n        }\n\n        // Merge the points\n        self.points.extend(other.points);","        // Merge the points\n        self.points.extend(other.points.clone());\n        if self.colors.is_some() != other.colors.is_some() {\n            return Err(\"Cannot merge point clouds with inconsistent color data\".into());\n        }","merge extends the points before the colour presence check"),
+ ("m-C19-plane-orientation","C19","src/geom3/plane3.rs","        let normal = UnitVec3::new_normalize((p2 - p1).cross(&(p3 - p1)));\n        Self::from((&normal, p1))","        let normal = UnitVec3::new_normalize((p2 - p1).cross(&(p3 - p1)));\n        Self::from((&normal, p2))","plane from three points anchored on the second point (harmless) -- control mutant"),
+ ("m-C20-uv-point-order","C20","src/geom3/mesh/uv_mapping.rs","            + tri.b.coords * barycentric[1]\n            + tri.c.coords * barycentric[2];","            + tri.b.coords * barycentric[2]\n            + tri.c.coords * barycentric[1];","UvMapping::point swaps two barycentric coordinates"),
+ ("m-C11-arc-length-signed","C11","src/geom2/circle2.rs","        self.circle.ball.radius * self.angle.abs()","        self.circle.ball.radius * self.angle","arc length negative for clockwise arcs"),
+ ("m-C02-angle-and","C02","src/geom3/mesh/queries.rs","                if angle < max_angle || angle > PI - max_angle {","                if angle < max_angle {","angle filter rejects offsets on the back side of the face"),
+ ("m-C03-sp-normal-not-rotated","C03","src/common/surface_point.rs","        Self::new(t * self.point, t * self.normal)","        Self::new(t * self.point, self.normal)","SurfacePoint::transformed moves the point but keeps the normal"),
+ ("m-C13-section-tol","C13","src/geom3/mesh/queries.rs","                if let Ok(curve) = Curve3::from_points(&points, tol) {","                if let Ok(curve) = Curve3::from_points(&points[1..], tol) {","section drops the first vertex of every chain"),
+ ("m-C17-resample-step","C17","src/func1/series1.rs","        let step_size = (self.x_max() - self.x_min()) / (n as f64 - 1.0);","        let step_size = (self.x_max() - self.x_min()) / (n as f64);","resampled_n step computed with n instead of n-1 (last point short of x_max)"),
+ ("m-C17-shift-y-only","C17","src/func1/series1.rs","        let xs = self.x.iter().map(|v| v + shift_x).collect::<Vec<f64>>();\n        let ys = self.y.iter().map(|v| v + shift_y).collect::<Vec<f64>>();","        let xs = self.x.iter().map(|v| v + shift_x).collect::<Vec<f64>>();\n        let ys = self.y.iter().map(|v| v + shift_x).collect::<Vec<f64>>();","shift_by adds the x shift to the ordinates"),
  ("m-C18-negative-extent","C18","src/common/angles.rs","            let start = angle_to_2pi(start + angle);","            let start = angle_to_2pi(start);","negative extent keeps the start"),
  ("m-C18-overlaps","C18","src/common/interval.rs","        self.contains(other.min) || other.contains(self.min)","        self.contains(other.min) || other.contains(self.max)","overlaps tests the wrong bound"),
 ]
